@@ -103,10 +103,15 @@ func (panel *userPanel) TerminateActiveUser(user *ActiveUser, reason string) {
 		"reason": reason,
 	}).Info("Terminating active user")
 	panel.updateUsageQueueForOne(user)
-	user.closeAllSessions(reason)
+	// forget the record first, and only if it still is the registered one: a connection that resolved this
+	// record earlier must not be able to create a session the panel does not know about, and terminating a
+	// stale record must not unregister its successor
 	panel.activeUsersM.Lock()
-	delete(panel.activeUsers, user.arrUID)
+	if panel.activeUsers[user.arrUID] == user {
+		delete(panel.activeUsers, user.arrUID)
+	}
 	panel.activeUsersM.Unlock()
+	user.terminate(reason)
 }
 
 func (panel *userPanel) isActive(UID []byte) bool {
